@@ -12,6 +12,7 @@ from crosshair.libimpl import builtinslib as _bl
 from crosshair.libimpl import relib as _relib
 from crosshair.libimpl.builtinslib import invoke_dunder as _invoke_dunder
 from crosshair.util import CrossHairValue as _CHV
+from crosshair.tracers import NoTracing as _NoTracing
 
 APPLIED = []
 
@@ -45,7 +46,13 @@ def _fixed_imp(top_patterns, flags, string, offset, allow_empty, ord=ord, chr=ch
 
 
 def _is_symbolic_number(obj):
-    return isinstance(obj, (_bl.SymbolicInt, _bl.SymbolicFloat)) and not isinstance(obj, _bl.SymbolicBool)
+    with _NoTracing():      # under tracing isinstance() answers for the *modelled* type (int), not the proxy class
+        return isinstance(obj, (_bl.SymbolicInt, _bl.SymbolicFloat)) and not isinstance(obj, _bl.SymbolicBool)
+
+
+def _is_a(obj, classes):
+    with _NoTracing():
+        return isinstance(obj, classes)
 
 
 def _safe_repr(obj, depth=0):
@@ -53,17 +60,17 @@ def _safe_repr(obj, depth=0):
     placeholder '<int>' / '<float>' / '<str>' (E5). labrea only uses repr()/f-strings for messages and names;
     str() - which templates use to render option values - stays exact."""
     if _is_symbolic_number(obj):
-        return "<float>" if isinstance(obj, _bl.SymbolicFloat) else "<int>"
-    if isinstance(obj, _bl.AnySymbolicStr):
+        return "<float>" if _is_a(obj, _bl.SymbolicFloat) else "<int>"
+    if _is_a(obj, _bl.AnySymbolicStr):
         return "<str>"
     if depth < 6:
-        if isinstance(obj, dict) or isinstance(obj, _bl.ShellMutableMap):
+        if isinstance(obj, dict) or _is_a(obj, _bl.ShellMutableMap):
             return "{" + ", ".join(_safe_repr(k, depth + 1) + ": " + _safe_repr(v, depth + 1) for k, v in obj.items()) + "}"
-        if isinstance(obj, list) or isinstance(obj, _bl.ShellMutableSequence):
+        if isinstance(obj, list) or _is_a(obj, _bl.ShellMutableSequence):
             return "[" + ", ".join(_safe_repr(v, depth + 1) for v in obj) + "]"
         if isinstance(obj, tuple) and type(obj).__repr__ is tuple.__repr__:
             return "(" + ", ".join(_safe_repr(v, depth + 1) for v in obj) + ("," if len(obj) == 1 else "") + ")"
-        if isinstance(obj, (set, frozenset)) or isinstance(obj, _bl.ShellMutableSet):
+        if isinstance(obj, (set, frozenset)) or _is_a(obj, _bl.ShellMutableSet):
             return "{" + ", ".join(_safe_repr(v, depth + 1) for v in obj) + "}"
     return _invoke_dunder(obj, "__repr__")
 
@@ -82,19 +89,39 @@ def _format_nodes(obj, format_spec=""):
     E5: a symbolic number renders as a placeholder, containers through _safe_repr."""
     if format_spec == "":
         if _is_symbolic_number(obj):
-            return "<float>" if isinstance(obj, _bl.SymbolicFloat) else "<int>"
-        if isinstance(obj, _bl.AnySymbolicStr):
+            return "<float>" if _is_a(obj, _bl.SymbolicFloat) else "<int>"
+        if _is_a(obj, _bl.AnySymbolicStr):
             return obj
-        if isinstance(obj, _CONTAINERS) or isinstance(obj, (_bl.ShellMutableMap, _bl.ShellMutableSequence, _bl.ShellMutableSet)):
-            if type(obj).__str__ is object.__str__ or isinstance(obj, _CHV):
-                return _safe_repr(obj)
-        if not isinstance(obj, _CHV) and type(obj).__format__ is object.__format__:
+        if isinstance(obj, _CONTAINERS) or _is_a(obj, (_bl.ShellMutableMap, _bl.ShellMutableSequence, _bl.ShellMutableSet)):
+            return _safe_repr(obj)
+        with _NoTracing():
+            ordinary = not isinstance(obj, _CHV) and type(obj).__format__ is object.__format__
+        if ordinary:
             return obj.__str__()
     return _orig_format(obj, format_spec)
 
 
+_orig_dict = None
+
+
+def _dict_any_pairs(*a, **kw):
+    """E6: dict(iterable) accepts pairs that are arbitrary iterables (e.g. generators, as labrea's evaluatable_dict
+    produces); the stock model calls len(pair) and raises TypeError for them."""
+    if len(a) == 1:
+        with _NoTracing():
+            plain_iterable = not hasattr(a[0], "keys") and not isinstance(a[0], (dict, str, bytes))
+        if plain_iterable:
+            pairs = []
+            for pair in a[0]:
+                with _NoTracing():
+                    sized = hasattr(pair, "__len__")
+                pairs.append(pair if sized else tuple(pair))
+            return _orig_dict(pairs, **kw)
+    return _orig_dict(*a, **kw)
+
+
 def apply():
-    global _orig_format
+    global _orig_format, _orig_dict
     if APPLIED:
         return APPLIED
     _c._PATCH_REGISTRATIONS[re.Pattern.findall] = _findall
@@ -115,12 +142,15 @@ def apply():
     _bl.AnySymbolicStr.__repr__ = lambda self: "<str>"
 
     def _num_format(self, fmt):
-        if fmt == "" and not isinstance(self, _bl.SymbolicBool):
-            return "<float>" if isinstance(self, _bl.SymbolicFloat) else "<int>"
+        if fmt == "" and not _is_a(self, _bl.SymbolicBool):
+            return "<float>" if _is_a(self, _bl.SymbolicFloat) else "<int>"
         return _orig_num_format(self, fmt)
 
     _bl.SymbolicNumberAble.__format__ = _num_format
     APPLIED.append("E5 placeholder-text-for-symbolic-scalars-in-repr-and-fstrings")
+    _orig_dict = _c._PATCH_REGISTRATIONS[_b.dict]
+    _c._PATCH_REGISTRATIONS[_b.dict] = _dict_any_pairs
+    APPLIED.append("E6 dict-of-unsized-pairs")
     _orig_format = _c._PATCH_REGISTRATIONS[_b.format]
     _c._PATCH_REGISTRATIONS[_b.format] = _format_nodes
     APPLIED.append("E4 format-without-deep-realize")
